@@ -435,3 +435,23 @@ Definition stop_returned (c : cid) (m : mem) : bool := get m (LWg c) =? 0.
 (* the order a worker would have with  defer wg.Done()  registered AFTER  defer XRoutinesDecr() *)
 Definition stage_worker_bad (c : cid) (body : list op) : prog :=
   seq (counter_incr c 1) (seq (compile body) (seq (wg_done c) (counter_decr c 1))).
+
+(* ---- the archiver as a client of the package (internal/pkg/archiver/archiver.go, archive()) *)
+(* archive()'s retry loop: 5xx, 408, 425, 429 are retried up to max-retry times; [fuel] = max-retry + 1;
+   the script exhausted, the origin answers 200 *)
+Definition retry_class (s : N) : bool := (500 <=? s) || (s =? 408) || (s =? 425) || (s =? 429).
+Fixpoint attempts (fuel : nat) (script : list N) : list N :=
+  match fuel with
+  | O => []
+  | S f => let s := hd 200 script in
+           if retry_class s then s :: attempts f (tl script) else [s]
+  end.
+(* the calls it makes, given the statuses received per item (after "fix: archiver counts the
+   responses it retries on or gives up on", /repo 3ec1779): HTTPReturnCodesIncr for every response,
+   URLsCrawledIncr once per item *)
+Definition arch_calls (served : list (list N)) : list (op * N) :=
+  flat_map (fun sv => map (fun s => (ORateIncr (RKey s) 1, 1)) sv ++ [(ORateIncr RUrls 1, 1)]) served.
+(* the code as found: only the response finally accepted was counted *)
+Definition arch_calls_orig (served : list (list N)) : list (op * N) :=
+  flat_map (fun sv => map (fun s => (ORateIncr (RKey s) 1, 1)) (filter (fun s => negb (retry_class s)) sv)
+                      ++ [(ORateIncr RUrls 1, 1)]) served.
